@@ -8,7 +8,6 @@ import (
 	"fmt"
 	"strings"
 
-	"github.com/golang/protobuf/proto"
 	"github.com/itchio/lake/tlc"
 	"github.com/itchio/savior"
 	"github.com/itchio/savior/seeksource"
@@ -38,6 +37,14 @@ func (c *countingSource) ReadByte() (byte, error) {
 		c.n++
 	}
 	return b, err
+}
+
+// pmsg is what wire.ReadContext.ReadMessage wants (a protobuf message), spelled out so that
+// the harness module needs no direct dependency on the protobuf package.
+type pmsg interface {
+	Reset()
+	String() string
+	ProtoMessage()
 }
 
 type c03MsgKind int
@@ -112,7 +119,7 @@ func c03ParsePatch(patch []byte) (*c03PatchInfo, error) {
 	if err := rctx.ReadMessage(pi.Source); err != nil {
 		return nil, err
 	}
-	read := func(m proto.Message, out c03Msg) (c03Msg, error) {
+	read := func(m pmsg, out c03Msg) (c03Msg, error) {
 		out.Start = cs.n
 		if err := rctx.ReadMessage(m); err != nil {
 			return out, err
